@@ -1,16 +1,23 @@
 // c31: streamed values read back exactly as written (property C31).
 //
 // Bounded exhaustive enumeration of Add / Update / Upsert / Remove programs over two keys against the real
-// streamingdata.StreamingDataStore, on two backends:
-//   - "mem":  the real btree.Btree over a map node repository (slot length 4, so 6 chunks span several nodes);
+// streamingdata.StreamingDataStore, on three backends:
 //   - "infs-big" / "infs-medium": a real infs streaming store on /dev/shm (sop.BigData configuration as in the
 //     repository's own streaming tests = values actively persisted; sop.MediumData = values written at commit),
-//     one transaction per step, commit, verification in a NEW transaction.
+//     one transaction per step, commit, verification in a NEW transaction;
+//   - "mem": the real btree.Btree over a map node repository (slot length 4, so 6 chunks span several nodes),
+//     cheap enough for the deep / wide plans (see plans()).
 //
-// Reference model: key -> the value sequence written last. After every program the real store must
-//   (1) decode, per key, exactly that sequence and then report io.EOF (decode loop bounded by 4x the count),
-//   (2) hold, per key, chunk items with indexes 0..m-1 whose concatenated bytes are exactly the JSON stream of
-//       that sequence, and no chunk of any other key (scan of the underlying B-tree).
+// Reference model: key -> the value sequence written last. After every program (every prefix of a program is a
+// program of its own, so this is "after every step") the real store must
+//
+//	(1) decode, per key, exactly that sequence and then report io.EOF (decode loop bounded by 4x the count),
+//	(2) hold, per key, chunk items with indexes 0..m-1 whose concatenated bytes are exactly the JSON stream of
+//	    that sequence, and no chunk of any other key (complete scan of the underlying B-tree).
+//
+// Sig = [<input-class prefix>|]<oracle>|<class>: class is "chunk>512" / "chunk<=512" (largest chunk of the entry)
+// for decode/operation oracles and "after=<last effective operation on that key>" (Remove, Update-fewer, ...) for
+// the chunk-set oracles.
 package main
 
 import (
@@ -24,6 +31,7 @@ import (
 	"runtime/pprof"
 	"sort"
 	"strings"
+	"syscall"
 	"time"
 
 	"github.com/sharedcode/sop"
@@ -190,7 +198,9 @@ func (iat) Get(context.Context, *btree.Item[sdKey, []byte]) error    { return ni
 func (iat) Update(context.Context, *btree.Item[sdKey, []byte]) error { return nil }
 func (iat) Remove(context.Context, *btree.Item[sdKey, []byte]) error { return nil }
 
-type memBackend struct{ st *sd.StreamingDataStore[string] }
+type memBackend struct {
+	st *sd.StreamingDataStore[string]
+}
 
 func newMem() backend {
 	so := sop.StoreOptions{Name: "m", SlotLength: 4, IsUnique: true, IsValueDataInNodeSegment: true}
@@ -370,78 +380,107 @@ func runProgram(c *collector, bk string, prog []step, stats map[string]int64) {
 	}
 	defer b.close()
 	mdl := model{}
+	// after[key]: how the key's entry was last changed: <op>-<new|fewer|equal|more|empty> (chunk count of the
+	// written sequence relative to the entry it replaced), "Remove", or "untouched".
+	after := map[int]string{0: "untouched", 1: "untouched"}
 	replay := map[string]any{"backend": bk, "program": prog}
 	// A step that only deletes chunk items (Remove of an existing entry, Update/Upsert of an existing entry with
 	// zero values) is a distinct input class: on the infs backends it is a transaction consisting of removals only.
-	marker := ""
+	// input-class prefix of every violation about a key after such a step (known consequence: the step is lost)
+	const removalOnly = "after-removal-only-transaction-on-actively-persisted-store|"
+	tainted := map[int]bool{} // keys that were the subject of such a step; the marker goes on violations about them
 	cost := progCost(prog)
-	viol := func(kind, class, detail string) {
+	viol := func(ki int, kind, class, detail string) { // ki: the key the violation is about, -1: the whole store
 		stats["failed_checks"]++
 		stats["failed_"+kind]++
-		c.violate(kind+"|"+class+marker, fmt.Sprintf("%s backend, program %v: %s", bk, prog, detail), replay, cost)
+		marker := ""
+		if tainted[ki] || (ki < 0 && len(tainted) > 0) {
+			marker = removalOnly
+		}
+		c.violate(marker+kind+"|"+class, fmt.Sprintf("%s backend, program %v: %s", bk, prog, detail), replay, cost)
 	}
 	for i, s := range prog {
 		old := mdl[s.Key]
 		nw := specsFor(i, s)
 		if len(old) > 0 && (s.Op == "Remove" || ((s.Op == "Update" || s.Op == "Upsert") && len(nw) == 0)) {
 			if bk == "infs-big" {
-				marker = "|removal-only-transaction-on-actively-persisted-store"
+				tainted[s.Key] = true
 			}
 		}
 		removed, noop, err := b.apply(i, s)
 		last := i == len(prog)-1
+		assigned := false // the model's entry of s.Key is (re)written or deleted by this step
 		switch s.Op {
 		case "Remove":
 			if err != nil {
 				if last {
-					viol("op-error", maxChunkClass(old), fmt.Sprintf("Remove(%s) returned error %v", keyNames[s.Key], err))
+					viol(s.Key, "op-error", maxChunkClass(old), fmt.Sprintf("Remove(%s) returned error %v", keyNames[s.Key], err))
 				}
 			} else {
 				if removed != (len(old) > 0) && last {
-					viol("op-result", maxChunkClass(old), fmt.Sprintf("Remove(%s) returned %v but the entry %s", keyNames[s.Key], removed, map[bool]string{true: "existed", false: "did not exist"}[len(old) > 0]))
+					viol(s.Key, "op-result", maxChunkClass(old), fmt.Sprintf("Remove(%s) returned %v but the entry %s", keyNames[s.Key], removed, map[bool]string{true: "existed", false: "did not exist"}[len(old) > 0]))
 				}
 				delete(mdl, s.Key)
+				assigned = len(old) > 0
 			}
 		case "Add":
 			switch {
 			case err != nil && len(old) == 0:
 				if last {
-					viol("op-error", maxChunkClass(nw), fmt.Sprintf("Add of a new entry %s failed: %v", describe(nw), err))
+					viol(s.Key, "op-error", maxChunkClass(nw), fmt.Sprintf("Add of a new entry %s failed: %v", describe(nw), err))
 				}
 			case err != nil:
 				// Add over an existing entry may be refused; the existing entry must then stay intact.
 			case len(old) > 0 && len(nw) == 0:
 				// nothing was written
 			default:
-				mdl[s.Key] = nw
+				mdl[s.Key], assigned = nw, true
 			}
 		case "Update":
 			switch {
 			case len(old) == 0:
 				if err == nil && !noop && len(nw) > 0 && last {
-					viol("op-result", maxChunkClass(nw), "Update of a missing entry returned an encoder")
+					viol(s.Key, "op-result", maxChunkClass(nw), "Update of a missing entry returned an encoder")
 				}
 				if err == nil && !noop {
-					mdl[s.Key] = nw
+					mdl[s.Key], assigned = nw, true
 				}
 			case err != nil || noop:
 				if last {
-					viol("op-error", maxChunkClass(old, nw), fmt.Sprintf("Update of existing entry %s with %s failed: noop=%v err=%v", describe(old), describe(nw), noop, err))
+					viol(s.Key, "op-error", maxChunkClass(old, nw), fmt.Sprintf("Update of existing entry %s with %s failed: noop=%v err=%v", describe(old), describe(nw), noop, err))
 				}
 			default:
-				mdl[s.Key] = nw
+				mdl[s.Key], assigned = nw, true
 			}
 		case "Upsert":
 			if err != nil || noop {
 				if last {
-					viol("op-error", maxChunkClass(old, nw), fmt.Sprintf("Upsert over %s with %s failed: noop=%v err=%v", describe(old), describe(nw), noop, err))
+					viol(s.Key, "op-error", maxChunkClass(old, nw), fmt.Sprintf("Upsert over %s with %s failed: noop=%v err=%v", describe(old), describe(nw), noop, err))
 				}
 			} else {
-				mdl[s.Key] = nw
+				mdl[s.Key], assigned = nw, true
 			}
 		}
 		if len(mdl[s.Key]) == 0 {
 			delete(mdl, s.Key)
+		}
+		if assigned {
+			switch {
+			case s.Op == "Remove":
+				after[s.Key] = "Remove"
+			case len(old) == 0 && len(nw) == 0:
+				// an empty entry written where there was none: nothing changed
+			case len(old) == 0:
+				after[s.Key] = s.Op + "-new"
+			case len(nw) == 0:
+				after[s.Key] = s.Op + "-empty"
+			case len(nw) < len(old):
+				after[s.Key] = s.Op + "-fewer"
+			case len(nw) == len(old):
+				after[s.Key] = s.Op + "-equal"
+			default:
+				after[s.Key] = s.Op + "-more"
+			}
 		}
 	}
 	stats["programs"]++
@@ -471,14 +510,16 @@ func runProgram(c *collector, bk string, prog []step, stats map[string]int64) {
 		ok, err = st.BtreeInterface.Next(ctx)
 	}
 	if err != nil {
-		viol("chunks-scan", maxChunkClass(mdl[0], mdl[1]), "scanning the B-tree failed: "+err.Error())
+		// (on the infs backends an error ends the transaction: nothing more can be observed in this view)
+		viol(-1, "chunks-scan", maxChunkClass(mdl[0], mdl[1]), "scanning the B-tree failed: "+err.Error())
+		return
 	}
 	if int(st.BtreeInterface.Count()) != n && err == nil {
-		viol("chunks-count", maxChunkClass(mdl[0], mdl[1]), fmt.Sprintf("Count()=%d but the scan returns %d chunk items", st.BtreeInterface.Count(), n))
+		viol(-1, "chunks-count", maxChunkClass(mdl[0], mdl[1]), fmt.Sprintf("Count()=%d but the scan returns %d chunk items", st.BtreeInterface.Count(), n))
 	}
 	for name := range got {
 		if name != keyNames[0] && name != keyNames[1] {
-			viol("chunks-foreign", "chunk<=512", "chunk items of unknown key "+name)
+			viol(-1, "chunks-foreign", "any", "chunk items of unknown key "+name)
 		}
 	}
 	for ki, name := range keyNames {
@@ -511,9 +552,9 @@ func runProgram(c *collector, bk string, prog []step, stats map[string]int64) {
 		stats["chunk_checks"]++
 		switch {
 		case len(exp) == 0 && len(got[name]) > 0:
-			viol("chunks-leftover", maxChunkClass(exp), fmt.Sprintf("%s has no entry in the model but chunk items %v (%d bytes) are present", name, idxs, have.Len()))
+			viol(ki, "chunks-leftover", "after="+after[ki], fmt.Sprintf("%s has no entry in the model but chunk items %v (%d bytes) are present", name, idxs, have.Len()))
 		case !contiguous:
-			viol("chunks-index", maxChunkClass(exp), fmt.Sprintf("%s: chunk indexes %v are not 0..m-1", name, idxs))
+			viol(ki, "chunks-index", "after="+after[ki], fmt.Sprintf("%s: chunk indexes %v are not 0..m-1", name, idxs))
 		case !bytes.Equal(have.Bytes(), want.Bytes()):
 			kind := "chunks-content"
 			if have.Len() > want.Len() && bytes.HasPrefix(have.Bytes(), want.Bytes()) {
@@ -521,7 +562,7 @@ func runProgram(c *collector, bk string, prog []step, stats map[string]int64) {
 			} else if have.Len() < want.Len() && bytes.HasPrefix(want.Bytes(), have.Bytes()) {
 				kind = "chunks-missing"
 			}
-			viol(kind, maxChunkClass(exp), fmt.Sprintf("%s: stored chunk items %v hold %d bytes, the last written sequence %s encodes to %d bytes", name, idxs, have.Len(), describe(exp), want.Len()))
+			viol(ki, kind, "after="+after[ki], fmt.Sprintf("%s: stored chunk items %v hold %d bytes, the last written sequence %s encodes to %d bytes", name, idxs, have.Len(), describe(exp), want.Len()))
 		}
 	}
 	// (1) decode through the API.
@@ -530,11 +571,11 @@ func runProgram(c *collector, bk string, prog []step, stats map[string]int64) {
 		stats["decode_checks"]++
 		found, err := st.FindOne(ctx, name)
 		if err != nil {
-			viol("find-error", maxChunkClass(exp), fmt.Sprintf("FindOne(%s): %v", name, err))
+			viol(ki, "find-error", maxChunkClass(exp), fmt.Sprintf("FindOne(%s): %v", name, err))
 			continue
 		}
 		if found != (len(exp) > 0) {
-			viol("find", maxChunkClass(exp), fmt.Sprintf("FindOne(%s)=%v, model has %d values", name, found, len(exp)))
+			viol(ki, "find", "after="+after[ki], fmt.Sprintf("FindOne(%s)=%v, model has %d values", name, found, len(exp)))
 			continue
 		}
 		if !found {
@@ -542,7 +583,7 @@ func runProgram(c *collector, bk string, prog []step, stats map[string]int64) {
 		}
 		dec, err := st.GetCurrentValue(ctx)
 		if err != nil || dec == nil {
-			viol("decode-error", maxChunkClass(exp), fmt.Sprintf("GetCurrentValue(%s): %v", name, err))
+			viol(ki, "decode-error", maxChunkClass(exp), fmt.Sprintf("GetCurrentValue(%s): %v", name, err))
 			continue
 		}
 		limit := 4*len(exp) + 4
@@ -570,7 +611,7 @@ func runProgram(c *collector, bk string, prog []step, stats map[string]int64) {
 		}
 		switch {
 		case bad >= 0:
-			viol("decode-value", class, fmt.Sprintf("%s written as %s: value #%d decodes as %s, want %s", name, describe(exp), bad, short(vals[bad]), short(exp[bad].payload())))
+			viol(ki, "decode-value", class, fmt.Sprintf("%s written as %s: value #%d decodes as %s, want %s", name, describe(exp), bad, short(vals[bad]), short(exp[bad].payload())))
 		case derr == nil || len(vals) > len(exp):
 			rep := ""
 			if len(vals) > len(exp) && len(exp) > 0 {
@@ -581,11 +622,11 @@ func runProgram(c *collector, bk string, prog []step, stats map[string]int64) {
 					}
 				}
 			}
-			viol("decode-extra", class, fmt.Sprintf("%s written as %d values %s: after them the decoder yields a further value instead of end of stream%s", name, len(exp), describe(exp), rep))
+			viol(ki, "decode-extra", class, fmt.Sprintf("%s written as %d values %s: after them the decoder yields a further value instead of end of stream%s", name, len(exp), describe(exp), rep))
 		case derr != io.EOF:
-			viol("decode-error", class, fmt.Sprintf("%s written as %s: after %d values the decoder fails with %v (want io.EOF after %d)", name, describe(exp), len(vals), derr, len(exp)))
+			viol(ki, "decode-error", class, fmt.Sprintf("%s written as %s: after %d values the decoder fails with %v (want io.EOF after %d)", name, describe(exp), len(vals), derr, len(exp)))
 		case len(vals) < len(exp):
-			viol("decode-short", class, fmt.Sprintf("%s written as %d values %s: end of stream after %d values", name, len(exp), describe(exp), len(vals)))
+			viol(ki, "decode-short", class, fmt.Sprintf("%s written as %d values %s: end of stream after %d values", name, len(exp), describe(exp), len(vals)))
 		}
 	}
 }
@@ -608,12 +649,20 @@ var sizesFullThorough = []int{1, 100, 511, 512, 513, 4096, 70000, 1 << 20}
 var only513 = []int{513}
 
 var only100 = []int{100}
+var sizesNoHuge = []int{1, 100, 511, 512, 513, 4096}
 
 // plans: the full product (2402 steps)^3 is out of reach (1.4e10 programs), so the space is factored into
-// "every program structure of depth d over a reduced size alphabet" and "every value-size sequence of the full
-// size alphabet at one step position, every step over the reduced alphabet at the other".
-// Reduced alphabets: {100,513} = one chunk the JSON decoder reads in one piece and one it cannot (its read
-// buffer starts at 512 bytes); {100} / {513} alone where only the chunk COUNTS (0-3, fewer/equal/more) matter.
+//
+//	(a) every value-size sequence (0-3 values) of the FULL size alphabet in a one-step program (what the reader
+//	    has to cope with), on every backend;
+//	(b) every program STRUCTURE of depth <= 3 (thorough 4) over a reduced size alphabet: {100,513} = one chunk the
+//	    JSON decoder reads in one piece and one it cannot (its read buffer starts at 512 bytes); {100} / {513}
+//	    alone where only the chunk COUNTS (0-3: fewer / equal / more) matter;
+//	(c) two-step programs with a wide size alphabet (all sizes up to 4096; thorough also the full one) at one step
+//	    position and {513} / {100,513} at the other (replacement of entries of every size sequence, and by every
+//	    size sequence).
+//
+// "Exact" plans run only programs of exactly their depth; every shorter prefix is a program of another plan.
 func plans(thorough bool) []plan {
 	full := sizesFull
 	if thorough {
@@ -621,36 +670,44 @@ func plans(thorough bool) []plan {
 	}
 	p := []plan{
 		{Name: "mem-depth3-sizes{100,513}", Backend: "mem", Levels: [][]int{sizesSmall, sizesSmall, sizesSmall}},
+		{Name: "mem-depth1-full", Backend: "mem", Levels: [][]int{full}},
 	}
 	if thorough {
 		p = append(p,
-			plan{Name: "mem-full-then-{100,513}", Backend: "mem", Levels: [][]int{full, sizesSmall}},
-			plan{Name: "mem-{100,513}-then-full", Backend: "mem", Levels: [][]int{sizesSmall, full}, Exact: true},
+			plan{Name: "mem-full-then-{513}", Backend: "mem", Levels: [][]int{full, only513}, Exact: true},
+			plan{Name: "mem-{513}-then-full", Backend: "mem", Levels: [][]int{only513, full}, Exact: true},
+			plan{Name: "mem-{1..4096}-then-{100,513}", Backend: "mem", Levels: [][]int{sizesNoHuge, sizesSmall}, Exact: true},
+			plan{Name: "mem-{100,513}-then-{1..4096}", Backend: "mem", Levels: [][]int{sizesSmall, sizesNoHuge}, Exact: true},
 			plan{Name: "mem-depth4-sizes{100}", Backend: "mem", Levels: [][]int{only100, only100, only100, only100}, Exact: true},
 			plan{Name: "mem-depth4-sizes{513}", Backend: "mem", Levels: [][]int{only513, only513, only513, only513}, Exact: true})
 	} else {
 		p = append(p,
-			plan{Name: "mem-full-then-{513}", Backend: "mem", Levels: [][]int{full, only513}},
-			plan{Name: "mem-{513}-then-full", Backend: "mem", Levels: [][]int{only513, full}, Exact: true})
+			plan{Name: "mem-{1..4096}-then-{513}", Backend: "mem", Levels: [][]int{sizesNoHuge, only513}, Exact: true},
+			plan{Name: "mem-{513}-then-{1..4096}", Backend: "mem", Levels: [][]int{only513, sizesNoHuge}, Exact: true})
 	}
 	for _, bk := range []string{"infs-big", "infs-medium"} {
-		p = append(p,
-			plan{Name: bk + "-depth1-full", Backend: bk, Levels: [][]int{full}},
-			plan{Name: bk + "-depth2-sizes{100,513}", Backend: bk, Levels: [][]int{sizesSmall, sizesSmall}, Exact: true})
-		if bk == "infs-big" || thorough {
-			p = append(p, plan{Name: bk + "-depth3-sizes{100}", Backend: bk, Levels: [][]int{only100, only100, only100}, Exact: true})
-		}
-		if thorough {
+		p = append(p, plan{Name: bk + "-depth1-full", Backend: bk, Levels: [][]int{full}})
+		switch {
+		case thorough:
 			p = append(p,
-				plan{Name: bk + "-depth3-sizes{513}", Backend: bk, Levels: [][]int{only513, only513, only513}, Exact: true},
-				plan{Name: bk + "-full-then-{513}", Backend: bk, Levels: [][]int{full, only513}, Exact: true},
-				plan{Name: bk + "-{513}-then-full", Backend: bk, Levels: [][]int{only513, full}, Exact: true})
+				plan{Name: bk + "-depth2-sizes{100,513}", Backend: bk, Levels: [][]int{sizesSmall, sizesSmall}, Exact: true},
+				plan{Name: bk + "-depth3-sizes{100}", Backend: bk, Levels: [][]int{only100, only100, only100}, Exact: true},
+				plan{Name: bk + "-depth3-sizes{513}", Backend: bk, Levels: [][]int{only513, only513, only513}, Exact: true})
+		case bk == "infs-big":
+			p = append(p,
+				plan{Name: bk + "-depth3-sizes{100}", Backend: bk, Levels: [][]int{only100, only100, only100}},
+				plan{Name: bk + "-depth2-sizes{513}", Backend: bk, Levels: [][]int{only513, only513}, Exact: true})
+		default:
+			p = append(p,
+				plan{Name: bk + "-depth2-sizes{100}", Backend: bk, Levels: [][]int{only100, only100}, Exact: true},
+				plan{Name: bk + "-depth2-sizes{513}", Backend: bk, Levels: [][]int{only513, only513}, Exact: true})
 		}
 	}
 	if thorough {
 		p = append(p,
 			plan{Name: "infs-big-depth4-sizes{100}", Backend: "infs-big", Levels: [][]int{only100, only100, only100, only100}, Exact: true},
-			plan{Name: "infs-big-depth3-sizes{100,513}", Backend: "infs-big", Levels: [][]int{sizesSmall, sizesSmall, sizesSmall}, Exact: true})
+			plan{Name: "infs-big-{1..4096}-then-{513}", Backend: "infs-big", Levels: [][]int{sizesNoHuge, only513}, Exact: true},
+			plan{Name: "infs-big-{513}-then-{1..4096}", Backend: "infs-big", Levels: [][]int{only513, sizesNoHuge}, Exact: true})
 	}
 	return p
 }
@@ -759,6 +816,11 @@ func main() {
 			run.Add(k, v)
 		}
 		run.Add("programs_"+p.Backend, stats["programs"])
+		run.Add("programs_plan_"+p.Name, stats["programs"])
+		var ru syscall.Rusage
+		if syscall.Getrusage(syscall.RUSAGE_SELF, &ru) == nil {
+			run.Add("cpu_ms_plan_"+p.Name, (ru.Utime.Sec+ru.Stime.Sec)*1000+int64(ru.Utime.Usec+ru.Stime.Usec)/1000)
+		}
 		if l := c.list(); len(l) > 0 {
 			run.Set("candidates", l)
 		}
@@ -773,17 +835,19 @@ func main() {
 	}
 	var est []jobEst
 	for pi, p := range pl {
-		progs, w := 1.0, 0.1 // ms per program
+		progs, w, extra := 1.0, 0.1, 2.4 // measured ms per program: base, and per step drawn from the full size alphabet
 		if isInfs(p.Backend) {
-			w = 6
+			w, extra = 6, 30
+		}
+		if thorough {
+			extra *= 4 // 1 MB values
 		}
 		for _, l := range p.Levels {
 			progs *= float64(len(alphabet(l)))
-			if len(l) > 2 {
-				w *= 4 // large values
-				if thorough {
-					w *= 3 // 1 MB values
-				}
+			if len(l) > 6 { // the full alphabet (70000-byte and, thorough, 1 MB values)
+				w += extra
+			} else if len(l) > 2 {
+				w += extra / 8
 			}
 		}
 		target := 4000.0 // ms of work per shard
@@ -856,6 +920,7 @@ func main() {
 		"sizes are chunk lengths in bytes as the reader sees them (1 = 1-character payload); after the last step of each program both keys are decoded through FindOne/GetCurrentValue "+
 		"and all (key,chunkIndex) items of the underlying B-tree are scanned and compared with the model; every prefix is a program of its own. "+
 		"distinct_nontrivial = number of distinct programs executed (measured); evaluations = decode checks + chunk-set checks")
+	run.Assumption("the full product of 2402 steps ^ 3 (1.4e10 programs) is factored: all size sequences in one-step programs on every backend; all program structures of depth <= 3 (thorough 4) over reduced size alphabets; two-step programs with a wide alphabet at one position (see plans); a defect needing two different large sizes in two different steps AND a third step is not enumerated")
 	run.Assumption("values are JSON strings (one Encode = one chunk written by json.Encoder); other JSON value types are not enumerated")
 	run.Assumption("the caller follows the documented protocol: Encode each value, then Close; it stops at the first Encode error (infs backend: the transaction is then rolled back)")
 	run.Assumption("Add over an existing entry is outside the statement: the check only requires that a refused Add leaves the existing entry intact and that an accepted Add reads back as written")
